@@ -535,6 +535,18 @@ def rule_OA(run: Run) -> RuleResult:
                         t = _astu.norm_opts(a2)
                         for opn in ("evaluate", "validate", "keys", "explain", "transform"):
                             t = t.replace(f"'{opn}'", "'<op>'")
+                        # the operation handed over as a selector function (``_do_keys`` = lambda x, o: x.keys(o)) instead of by name
+                        if isinstance(a2, _ast.Name):
+                            r_sel = run.repo.resolve_name(owner.module, a2.id)
+                            if r_sel and r_sel[0] == "func":
+                                sfn = r_sel[1].node
+                                sps = [x.arg for x in sfn.args.posonlyargs + sfn.args.args]
+                                body_ = [st for st in sfn.body if not (isinstance(st, _ast.Expr) and isinstance(st.value, _ast.Constant))]
+                                if len(sps) == 2 and len(body_) == 1 and isinstance(body_[0], _ast.Return) and isinstance(body_[0].value, _ast.Call):
+                                    cv = body_[0].value
+                                    if isinstance(cv.func, _ast.Attribute) and isinstance(cv.func.value, _ast.Name) and cv.func.value.id == sps[0] and cv.func.attr == op \
+                                            and len(cv.args) == 1 and isinstance(cv.args[0], _ast.Name) and cv.args[0].id == sps[1] and not cv.keywords:
+                                        t = "'<op>'"
                         t = t.replace(pname, "<options>")
                         if i_a >= len(c.args):
                             t = f"{c.keywords[i_a - len(c.args)].arg}={t}"
